@@ -116,3 +116,16 @@ PROPS['C13'] = dict(
     exhaustive_note=lambda tier, tot: [dict(scope='every capacity 0..need+3 of every tree with <= %d nodes over {object, array, int, bool}' % (5 if tier == 'quick' else 7),
                                              exhaustive=True, trees=tot['counters'].get('enum_trees', 0))],
 )
+
+PROPS['C15'] = dict(
+    harness='cpp', cpp=True,
+    rule=('cases: byte strings (encodings of generated object-rooted trees of all seven types with keys containing 0x00 / >= 0x80, documents above the '
+          '1000-byte first-try buffer, 1-4 mutations of them, nesting chains, raw bytes incl. length 0 and 1, shipped valid and invalid corpora) through all '
+          'three deserialize overloads, verdict compared with the reference recogniser at depth 10; for valid ones serialize(deserialize(b)) == b, the '
+          'tree is rebuilt with put() in a generated non-sorted insertion order, serialize() compared with the reference encoder and round-tripped. '
+          'Non-trivial iff (bytes) init accepts the buffer, or (trees) the encoding exceeds 1000 bytes or nesting >= 3; distinct = hash(bytes, part).'),
+    tiers=dict(
+        quick=[rc(25000, shards=8, max_size=300, corpus=CORPUS), fuzz(100000, shards=8, corpus=CORPUS)],
+        thorough=[rc(500000, shards=6, max_size=600, corpus=CORPUS), fuzz(5000000, shards=10, max_len=2048, corpus=CORPUS)],
+    ),
+)
